@@ -29,6 +29,7 @@ let sval_of_scalar_token (t : string) : sval =
   | 'i' | 'u' -> SInt (z_of_string r)
   | 's' -> SStr (if r = "-" then [] else bytes_of_hex r)
   | 'b' -> SBool (r = "1")
+  | '?' -> SList []                       (* something nested: outside what the value token says *)
   | _ -> failwith "bad scalar"
 let value_of_token (t : string) : value =
   if String.length t > 0 && t.[0] = 'o' then begin
@@ -58,7 +59,7 @@ let token_of_value = function
   | VObj fs ->
     "o" ^ String.concat ";" (List.sort compare (List.map (fun (f, v) ->
         seg_name f ^ "=" ^ (match v with SInt x -> "i" ^ string_of_z x | SStr l -> "s" ^ hexs l
-                                        | SBool b -> if b then "b1" else "b0" | SList _ -> "l?")) fs))
+                                        | SBool b -> if b then "b1" else "b0" | SList _ -> "?")) fs))
   | VList [] -> "l-"
   | VList l -> "l" ^ String.concat ":" (List.map hexs l)
 let token_of_sval = function
@@ -246,7 +247,7 @@ let emitted_of_impl (impl : string) (stepno : int) : (n list * value) list =
        List.filter_map (fun e ->
            if String.length e > 2 && String.sub e 0 2 = "E:" then begin
              let body = String.sub e 2 (String.length e - 2) in
-             let i = String.rindex body '=' in
+             let i = String.index body '=' in        (* object tokens contain '=' themselves *)
              Some (path_of_string (String.sub body 0 i), value_of_token (String.sub body (i + 1) (String.length body - i - 1)))
            end else None) (String.split_on_char ',' tr)
      | _ -> [])
